@@ -238,7 +238,7 @@ example : (names wcfg [wm 4 7, wm 20 23, wm 30 31]).Pairwise (fun a b => a.s ≤
   simp [names, nameOf, wcfg, wm, capLoop, Cfg.lookup]
 example : (runTags {} wcfg [] [wm 4 7, wm 20 23, wm 0 1]).map (·.name) = [⟨4, 7⟩, ⟨0, 1⟩, ⟨20, 23⟩] := by
   simp [runTags, run, initSt, wcfg, wm, flushReady, ready, processMatch, processTag, tagOf, capLoop, Cfg.lookup, qInsert, key, keyLt,
-    drain, cacheStep, utf16LenV, utf16Len, lossyUnits, slice, lineRange, docsOf, joinDocs, Tag.isIgnored, usizeMax, isLocal,
+    drain, cacheStep, utf16LenV, utf16Len, lossyUnits, slice, lineRange, docsOf, docsOfP, docTexts, joinDocs, Tag.isIgnored, usizeMax, isLocal,
     Option.filter, scan, maxLineLen]
 
 /-- **queue_lowest_pattern_wins.**  After an insertion the entry for the inserted name range carries
@@ -350,7 +350,7 @@ example : (runP {} wcfg3 [] [wmp 2 0 1, wmp 1 4 5, wmp 2 4 5, wmp 1 11 12, wmp 2
     noLate {} wcfg3 [] none [wmp 2 0 1, wmp 1 4 5, wmp 2 4 5, wmp 1 11 12, wmp 2 11 12, wmp 0 0 1] (initSt []) = false := by
   constructor <;>
   simp [noLate, newBound, bLt, inserted, runP, initSt, wcfg3, wcfg, wm, wmp, flushReadyP, ready, processMatch, processTag, tagOf,
-    capLoop, Cfg.lookup, qInsert, key, keyLt, drainP, cacheStep, utf16LenV, utf16Len, lossyUnits, slice, lineRange, docsOf,
+    capLoop, Cfg.lookup, qInsert, key, keyLt, drainP, cacheStep, utf16LenV, utf16Len, lossyUnits, slice, lineRange, docsOf, docsOfP, docTexts,
     joinDocs, Tag.isIgnored, usizeMax, isLocal, Option.filter, scan, maxLineLen]
 
 /-! ## Local scopes -/
@@ -433,5 +433,58 @@ theorem cache_correct_utf16_fixed (src : Bytes) (limit : Nat) (rowLs : Nat → N
   apply List.map_congr_left
   intro o _
   simp [utf16_len_fixed_eq_spec]
+
+/-! ## Docs -/
+
+/-- **docs_spec.**  For every strip function (the regex is a parameter), source, `select-adjacent!` node
+and list of `@doc` captures, the port of the docs pipeline equals the spec: the stripped texts (not-UTF-8
+nodes skipped) of all doc captures — or, with `select-adjacent!`, of `selectSpec` — joined by `\n`.
+Full strength. -/
+theorem docs_spec (strip : Option (Bytes → Bytes)) (src : Bytes) (adj : Option Cap) (docs : List Cap) :
+    docsOfP strip src adj docs = docsSpec strip src adj docs := docsOfP_eq_spec strip src adj docs
+
+/-- **docs_select_spec.**  What `selectSpec` (hence the `docs_start_index` loop) selects: a suffix of the
+doc captures that is a chain (every node ends on the row just above the next one's first row, or later;
+the last one just above the selected node) and is the LONGEST such suffix. -/
+theorem docs_select_spec (docs : List Cap) (row : Nat) :
+    selectAdjacent docs row = selectSpec docs row ∧
+    (∃ pre, docs = pre ++ selectSpec docs row) ∧ chainOK (selectSpec docs row) row = true ∧
+    ∀ pre s, docs = pre ++ s → chainOK s row = true → s.length ≤ (selectSpec docs row).length :=
+  ⟨selectAdjacent_eq_spec docs row, selectSpec_props docs row⟩
+
+/-- Non-vacuity: comments on rows 0, 2, 3 above a node on row 4 — the row-0 comment is cut off by the gap. -/
+example : (selectSpec [⟨5, 0, 6, ⟨0, 0⟩, ⟨0, 6⟩, false⟩, ⟨5, 8, 14, ⟨2, 0⟩, ⟨2, 6⟩, false⟩,
+                       ⟨5, 15, 21, ⟨3, 0⟩, ⟨3, 6⟩, false⟩] 4).map (·.sb) = [8, 15] := by decide
+
+/-! ## Lowest pattern index within one residence (no arrival hypothesis) -/
+
+/-- **queue_lowest_within_residence** (unconditional).  Run the loop on a queue whose entries carry the
+arrivals merged into them since they entered the queue (`runH`/`qInsertH`: an arrival is appended to the
+history of the queued entry with the same name range, or starts the history of a new entry).  For EVERY
+configuration, source and match sequence: forgetting the histories gives exactly `runP` (hence
+`runTags`); every emitted entry is one of the arrivals of its own residence, all of them have its name
+range, and its pattern index is minimal among them; and every recorded arrival is an entry some match
+inserted.  (A later residence of the same name range — finding C18-late-match-duplicate — has its own
+history; across residences nothing is promised, and nothing holds.) -/
+theorem queue_lowest_within_residence (v : Variant) (cfg : Cfg) (src : Bytes) (ms : List Mat) :
+    projH (runH v cfg src ms (initSt src) []) = runP v cfg src ms (initSt src) ∧
+    (∀ x ∈ runH v cfg src ms (initSt src) [],
+       x.1 ∈ x.2 ∧ (∀ a ∈ x.2, key a.1 = key x.1.1 ∧ x.1.2 ≤ a.2) ∧
+       ∀ a ∈ x.2, a ∈ arrivals v cfg src ms (initSt src)) := by
+  refine ⟨runH_proj v cfg src ms (initSt src) [] (by simp [initSt, projH]), fun x hx => ?_⟩
+  have h1 := runH_hist v cfg src ms (initSt src) [] (by simp) x hx
+  refine ⟨h1.1, h1.2, fun a ha => ?_⟩
+  rcases runH_src v cfg src ms (initSt src) [] (by simp [initSt, projH]) x hx a ha with ⟨y, hy, _⟩ | h
+  · simp at hy
+  · exact h
+
+/-- Non-vacuity on the late-match stream: `x` [0,1) has two residences with histories
+`[(x,2)]` and `[(x,0)]`; `f` [4,5) merges patterns 1 and 2 and leaves with 1. -/
+example : (runH {} wcfg3 [] [wmp 2 0 1, wmp 1 4 5, wmp 2 4 5, wmp 1 11 12, wmp 2 11 12, wmp 0 0 1] (initSt []) []).map
+      (fun x => (x.1.1.name, x.1.2, x.2.map (·.2))) =
+    [(⟨0, 1⟩, 2, [2]), (⟨4, 5⟩, 1, [1, 2]), (⟨0, 1⟩, 0, [0]), (⟨11, 12⟩, 1, [1, 2])] := by
+  simp [runH, flushReadyH, drainH, qInsertH, projH, inserted, initSt, wcfg3, wcfg, wm, wmp, ready, processMatch, processTag, tagOf,
+    capLoop, Cfg.lookup, qInsert, key, keyLt, cacheStep, utf16LenV, utf16Len, lossyUnits, slice, lineRange, docsOf, docsOfP, docTexts,
+    joinDocs, Tag.isIgnored, usizeMax, isLocal, Option.filter, scan, maxLineLen]
 
 end TsVerif.C18
